@@ -165,10 +165,20 @@ def hier_cases(C: Counter) -> List[dict]:
             pa = fa.Parent()
             pb = fb.Parent()
             ca, cb = pa.children[0], pb.children[0]
+            oa, ob = pa.children[1], pb.children[1]          # second child: another model than the first
+            ga, gb = oa.children[0], ob.children[0]          # grandchild (Child again, below an Other)
+            ca2, cb2 = pa.children[2], pb.children[2]
+            C["hierarchical_child_types"] = len({e.type for e in (pa, ca, oa, ga)})
             table = [  # (src entity, src attr, dst entity, dst attr, valid?)
                 (ca, "c_out", cb, "c_in", True), (ca, "p_out", cb, "c_in", False), (ca, "c_out", cb, "p_in", False),
                 (pa, "p_out", pb, "p_in", True), (pa, "c_out", pb, "p_in", False), (pa, "p_out", cb, "c_in", True),
                 (ca, "c_out", pb, "p_in", True), (pa, "p_out", cb, "p_in", False),
+                (oa, "o_out", ob, "o_in", True), (oa, "c_out", ob, "o_in", False), (oa, "o_out", ob, "c_in", False),
+                (oa, "o_out", cb, "c_in", True), (ca, "c_out", ob, "o_in", True), (ca, "o_out", ob, "o_in", False),
+                (ca, "c_out", ob, "c_in", False), (oa, "p_out", pb, "p_in", False),
+                (ga, "c_out", gb, "c_in", True), (ga, "o_out", gb, "c_in", False), (ga, "c_out", gb, "o_in", False),
+                (ga, "c_out", ob, "o_in", True), (oa, "o_out", gb, "c_in", True), (oa, "o_out", gb, "o_in", False),
+                (ca2, "c_out", cb2, "c_in", True), (ca2, "o_out", cb2, "c_in", False), (ca2, "c_out", ob, "o_in", True),
             ]
             for se, sa, de, da, valid in table:
                 C["hierarchical_entity_cases"] += 1
